@@ -2,6 +2,8 @@ package props
 
 import (
 	"fmt"
+	saml2 "github.com/russellhaering/gosaml2"
+	dsig "github.com/russellhaering/goxmldsig"
 	"strings"
 	"testing"
 	"time"
@@ -101,6 +103,15 @@ func (b Bound) opt() h.Opt {
 
 func c05Issue(c *C05Case) *h.Genuine {
 	g := gridGenuine(c.SP, len(c.SC), c.Mode)
+	if c.SP.NilClock {
+		for _, sg := range append([]*h.SignSpec{g.RespSig}, g.AsrtSig...) {
+			if sg != nil {
+				sg.Signer.Window = "long"
+				e := sg.Signer
+				sg.Embed = &e
+			}
+		}
+	}
 	for i := range g.Model.Assertions {
 		a := &g.Model.Assertions[i]
 		a.SCNotOnOrAfter = c.SC[i].opt()
@@ -176,6 +187,29 @@ func genC05(t *rapid.T) C05Case {
 	}
 	c.NB = renderBound(t, now, genDelta(t, "nbDelta"), true, "nb")
 	c.CN = renderBound(t, now, genDelta(t, "cnDelta"), true, "cn")
+	if rapid.IntRange(0, 11).Draw(t, "noClock") == 0 {
+		// a service provider WITHOUT a Clock follows the system time: the documents are dated by a nominal 2050 and
+		// every bound lies at least 45 years away from it (before 2005 / after 2095), so that the decisions are the
+		// same wherever between those years the system clock stands. Signed with the 1960-2260 certificate.
+		c.SP.NilClock, c.SP.NowOffset, c.SP.NowZone = true, 0, ""
+		c.SP.NowUnixNano = time.Date(2050, 1, 1, 0, 0, 0, 0, time.UTC).UnixNano()
+		c.SP.Store = []h.CertRef{{Key: "T1", Window: "long"}}
+		far := func(label string, b Bound) Bound {
+			if b.Defect != "" {
+				return b
+			}
+			years := time.Duration(rapid.IntRange(45, 150).Draw(t, label+"FarYears")) * 365 * 24 * time.Hour
+			d := int64(years)
+			if b.DeltaNs <= 0 {
+				d = -d
+			}
+			return Bound{DeltaNs: d, Text: h.GenTimeString(c.SP.Now().Add(time.Duration(d))).Draw(t, label+"FarText")}
+		}
+		for i := range c.SC {
+			c.SC[i] = far("sc", c.SC[i])
+		}
+		c.NB, c.CN = far("nb", c.NB), far("cn", c.CN)
+	}
 	c.NoCond = rapid.IntRange(0, 15).Draw(t, "noConditions") == 0
 	c.Cond = rapid.SampledFrom([]string{"", "", "foreign-aud", "match+foreign", "foreign+match", "otu+proxy", "all"}).Draw(t, "otherConditions")
 	finishC05(&c, func(err error) { t.Fatalf("harness: %v", err) })
@@ -207,6 +241,10 @@ func parseDefect(b Bound, tag, attrTag string) (ErrSpec, bool) {
 }
 
 func checkC05(c C05Case) h.Outcome {
+	return judgeC05(c, func() *saml2.SAMLServiceProvider { return c.SP.Build() })
+}
+
+func judgeC05(c C05Case, newSP func() *saml2.SAMLServiceProvider) h.Outcome {
 	o := h.Outcome{}
 	nonUTC := false
 	for _, b := range append(append([]Bound{}, c.SC...), c.NB, c.CN) {
@@ -216,6 +254,9 @@ func checkC05(c C05Case) h.Outcome {
 	}
 	o.NonTrivial = c.Boundary || nonUTC
 	o.Classes = append(o.Classes, "mode:"+c.Mode, fmt.Sprintf("n:%d", len(c.SC)))
+	if c.SP.NilClock {
+		o.Classes = append(o.Classes, "no-clock")
+	}
 	cls := func(name string, b Bound) {
 		switch {
 		case b.Defect != "":
@@ -267,7 +308,7 @@ func checkC05(c C05Case) h.Outcome {
 		wantInvalid = c.NB.DeltaNs > 0 || c.CN.DeltaNs <= 0
 	}
 
-	info, err := c.SP.Build().RetrieveAssertionInfo(c.Encoded)
+	info, err := newSP().RetrieveAssertionInfo(c.Encoded)
 	equalitySC, equalityCN := false, c.CN.Defect == "" && c.CN.DeltaNs == 0
 	for _, b := range c.SC {
 		if b.Defect == "" && b.DeltaNs == 0 {
@@ -321,6 +362,81 @@ func checkC05(c C05Case) h.Outcome {
 	}
 	return o
 }
+
+// C05Steps: ONE long-lived service provider whose clock is moved between validations — forwards, backwards (NTP
+// step, VM resume), by re-assigning the Clock field or by resetting the very same Clock object. Every decision is
+// taken at the instant the clock shows at that call, whatever it showed before.
+type C05Steps struct {
+	Steps     []C05Case `json:"steps"`
+	SameClock bool      `json:"sameClock"` // the Clock object stays, its reading is changed in place
+}
+
+func genC05Steps(t *rapid.T) C05Steps {
+	q := C05Steps{SameClock: rapid.IntRange(0, 2).Draw(t, "sameClockObject") != 0}
+	n := rapid.IntRange(2, 4).Draw(t, "steps")
+	for i := 0; i < n; i++ {
+		c := genC05(t)
+		for c.SP.NilClock {
+			c = genC05(t)
+		}
+		if i > 0 {
+			// the same message again at another instant (so that only the clock differs), two times in three
+			if rapid.IntRange(0, 2).Draw(t, "sameMessage") != 0 {
+				prev := q.Steps[i-1]
+				shift := rapid.SampledFrom([]int64{-int64(time.Hour), -int64(time.Second), -1, 1, int64(time.Second), int64(time.Hour), -int64(26 * time.Hour), int64(26 * time.Hour)}).Draw(t, "clockShift")
+				c = prev
+				c.SP.NowUnixNano += shift
+				c.SC = append([]Bound{}, prev.SC...)
+				mv := func(b Bound) Bound {
+					if b.DeltaNs > -(1<<61) && b.DeltaNs < 1<<61 {
+						b.DeltaNs -= shift
+					}
+					return b
+				}
+				for j := range c.SC {
+					c.SC[j] = mv(c.SC[j])
+				}
+				c.NB, c.CN = mv(c.NB), mv(c.CN)
+				c.Boundary = true
+			}
+		}
+		q.Steps = append(q.Steps, c)
+	}
+	return q
+}
+
+func checkC05Steps(q C05Steps) h.Outcome {
+	o := h.Outcome{NonTrivial: true, Classes: []string{fmt.Sprintf("sameClock:%v", q.SameClock)}}
+	sp := q.Steps[0].SP.Build()
+	for i, c := range q.Steps {
+		if i > 0 {
+			switch {
+			case q.Steps[i].SP.NowUnixNano < q.Steps[i-1].SP.NowUnixNano:
+				o.Classes = append(o.Classes, "clock:backwards")
+			default:
+				o.Classes = append(o.Classes, "clock:forwards")
+			}
+		}
+		if q.SameClock {
+			*sp.Clock = *dsig.NewFakeClockAt(c.SP.Now())
+		} else {
+			sp.Clock = dsig.NewFakeClockAt(c.SP.Now())
+		}
+		sp.SkipSignatureValidation = c.SP.Skip
+		so := judgeC05(c, func() *saml2.SAMLServiceProvider { return sp })
+		if so.Violation != nil {
+			so.Violation.Sig = "moved-clock/" + so.Violation.Sig
+			so.Violation.Detail = fmt.Sprintf("step %d of %d on a long-lived service provider whose clock was moved (same Clock object: %v): %s", i+1, len(q.Steps), q.SameClock, so.Violation.Detail)
+			o.Violation = so.Violation
+			return o
+		}
+	}
+	o.Classes = dedup(o.Classes)
+	return o
+}
+
+func TestC05_PSteps(t *testing.T)      { h.RunProp(t, "C05.steps", genC05Steps, checkC05Steps) }
+func TestC05_ReplaySteps(t *testing.T) { h.RunReplay(t, "C05.steps", checkC05Steps) }
 
 func TestC05(t *testing.T)        { h.RunProp(t, "C05", genC05, checkC05) }
 func TestC05_Replay(t *testing.T) { h.RunReplay(t, "C05", checkC05) }
